@@ -62,7 +62,7 @@ Definition astep (i : nat) (s : ast) (e : tev) : verdict :=
   match e with
   | TEnter j c =>
     if negb (Nat.eqb i j) then Go s else
-    if s_killed s then Bad 31 else                        (* a callback started after kill() returned *)
+    if s_killed s then (match c with PostStop => Bad 17 | _ => Bad 31 end) else   (* a callback started after kill() returned; 17: post_stop after a kill (C01 and C03) *)
     match s_phase s, c with
     | P0, PreStart => Go (set_phase s PPre)
     | PPreOk, PostStart => Go (set_phase s PPs)
